@@ -283,10 +283,9 @@ impl VerifyingKey {
         let signature = InternalSignature::try_from(signature)?;
 
         let ctx: &[u8] = context.unwrap_or(b"");
-        debug_assert!(
-            ctx.len() <= 255,
-            "The context must not be longer than 255 octets."
-        );
+        if ctx.len() > 255 {
+            return Err(SignatureError::from(InternalError::PrehashedContextLength));
+        }
 
         let message = prehashed_message.finalize();
         let expected_R = self.recompute_R::<CtxDigest>(Some(ctx), &signature, &message);
@@ -461,10 +460,9 @@ impl VerifyingKey {
         let signature = InternalSignature::try_from(signature)?;
 
         let ctx: &[u8] = context.unwrap_or(b"");
-        debug_assert!(
-            ctx.len() <= 255,
-            "The context must not be longer than 255 octets."
-        );
+        if ctx.len() > 255 {
+            return Err(SignatureError::from(InternalError::PrehashedContextLength));
+        }
 
         let signature_R = signature
             .R
